@@ -6,8 +6,42 @@ from valib import pipeline as PL
 LEVEL = "other"
 
 
-def run(chk, prog, tier):
-    roles = PL.Roles(prog)
+def _lvalue_leaves(e):
+    """source texts of the maximal lvalue sub-expressions (array elements, dereferences, members, variables) read by e"""
+    out = []
+
+    def rec(n):
+        n = strip(n, casts=True)
+        if n is None:
+            return
+        k = n.get("kind")
+        if k in ("ArraySubscriptExpr", "MemberExpr") or (k == "UnaryOperator" and n.get("opcode") == "*") or \
+                (k == "DeclRefExpr" and (n.get("referencedDecl") or {}).get("kind") in ("VarDecl", "ParmVarDecl")):
+            out.append(expr_str(n))
+            return
+        for c in kids(n):
+            rec(c)
+    rec(e)
+    return sorted(set(out))
+
+
+def lowers_ascii(prog, r):
+    """is the stored value, as a function of the one input character it reads, ASCII tolower()?  True / False / None (cannot tell)"""
+    leaves = _lvalue_leaves(r)
+    if len(leaves) != 1:
+        return None
+    try:
+        for v in range(0, 128):
+            got = ConstEval(prog, env_text={leaves[0]: v}).eval(r)
+            want = v + 32 if 65 <= v <= 90 else v
+            if got & 0xff != want:
+                return False
+    except Exception:
+        return None
+    return True
+
+
+def case_rule(chk, prog, roles):
     lp = prog.fn(roles.line_parser)
     raw = [p["name"] for p in prog.params(lp) if "char" in qtype(p) and "const" in qtype(p)]
     if len(raw) != 1:
@@ -35,6 +69,15 @@ def run(chk, prog, tier):
                 n += 1
                 r = strip(kids(m)[1], casts=True)
                 ok = (r.get("kind") == "CallExpr" and callee_name(r) == "tolower") or ConstEval(prog).try_eval(r) is not None
+                if not ok and m.get("opcode") == "=":
+                    # a hand-written fold (possibly a helper whose body was substituted into the call): evaluate it on every ASCII code
+                    low = lowers_ascii(prog, r)
+                    if low is None:
+                        chk.broken("CASE", "CASE/store/%s@%s" % (fname, loc_str(m)), loc_str(m),
+                                   "every character stored into the filtered line is the lower-case form of the input (or a constant)",
+                                   "cannot evaluate %s" % expr_str(m)[:80])
+                        continue
+                    ok = low
                 chk.require(ok and m.get("opcode") == "=", "CASE", "CASE/store/%s@%s" % (fname, loc_str(m)), loc_str(m),
                             "every character stored into the filtered line is tolower(...) of the input (or a constant)", expr_str(m))
     chk.floor("stores into the filtered line", n, 4)
@@ -55,6 +98,12 @@ def run(chk, prog, tier):
                 if EFF.lvalue_root(strip(x, casts=True))[0] in cur + [p["name"] for p in prog.params(drv) if "char" in qtype(p)]:
                     chk.require(callee_name(c) == roles.line_parser, "CASE", "CASE/driver/%s" % callee_name(c), loc_str(c),
                                 "the driver hands the program text only to the line parser", "passed to %s" % callee_name(c))
+    return fname
+
+
+def run(chk, prog, tier):
+    roles = PL.Roles(prog)
+    case_rule(chk, prog, roles)
     # the spelling of one line cannot reach another: the per-line record is fresh for every line
     from checks import C06
     C06.fresh_record_rule(chk, prog, roles, rule="FRESH")
